@@ -493,14 +493,15 @@ def gen_feature_program(rng):
                 break
         body = ["id = %s;" % (fid if isinstance(fid, int) else '"%s"' % fid)]
         ids = [tag_u32(fid)]
-        if rng.random() < 0.25:
+        if rng.random() < 0.3:
             while True:
-                alt = rng.randint(2, 60000)
-                if alt not in used_ids:
-                    used_ids.add(alt)
+                # numeric or 4-character alternate id (the latter needs the 32-bit ids of Feat 2.0 even when every main id is small)
+                alt = rng.choice([rng.randint(2, 60000), "".join(rng.choice("abcdefghijklmnopqrstuvwxyz") for _ in range(4))])
+                if tag_u32(alt) not in used_ids:
+                    used_ids.add(tag_u32(alt))
                     break
-            body.append("id.hidden = %d;" % alt)
-            ids.append(alt)
+            body.append("id.hidden = %s;" % (alt if isinstance(alt, int) else '"%s"' % alt))
+            ids.append(tag_u32(alt))
         labels = []
         if rng.random() < 0.85:
             for lang in rng.sample(LANGS, rng.randint(1, 3)) if rng.random() < 0.4 else [1033]:
